@@ -274,7 +274,7 @@ def render_cmd(cmd, tb):
             " ".join("(%s %s)" % (quote_sym(p), s) for p, s in cmd["params"]), cmd["ret"], tb.show(cmd["b"]))
     if c == "assert":
         names = {t: n for n, t in cmd.get("inner", [])}
-        body = tb.show(cmd["t"], names)
+        body = tb.show(cmd["t"], dict(names))
         if cmd.get("nm"):
             body = "(! %s :named %s)" % (body, quote_sym(cmd["nm"]))
         return "(assert %s)" % body
